@@ -1,4 +1,5 @@
 import Gallia.Proofs.Lemmas.Loss
+import Gallia.Proofs.Lemmas.LossSys
 import Gallia.Proofs.Lemmas.HsfzSys
 import Gallia.Gen.C08Loss
 import Gallia.Gen.C06Doip
@@ -557,5 +558,67 @@ example : ¬ ∃ w2, wReconnect linesProto { exScn with restart := 3000 }
   rw [reconnect_once _ _ _ (by decide)]; decide
 -- hypotheses of `loss_bounded_no_timeout` are satisfiable (eof, connection state of `Conn.init`)
 example : exScn.cut ≠ .silence ∧ (exScn.delta.isSome = false → exWorld.c0.ended = true) := by decide
+
+/-! ### whole executions (`Model/LossSys.lean`): any event list, any `max_retry`
+
+  The theorems below are stated for one client call issued in ANY state `s` (whatever the events before it made of the
+  connection, the listener and the peer) against ANY rest `es` of the event list (whatever the peer does while the call
+  runs: deliver any bytes, cut, refuse / accept connections, lose routing activations, let time pass) - which is every
+  call of every execution `LossSys.run` of every event list. -/
+
+section Sys
+open Gallia.LossSys (SProto Sys SEv PEv PConn)
+
+/-- every call with a caller timeout `t` returns or raises - for every `max_retry = n`, every state, every event list -
+    within `callBudget`: per attempt `min t ack + t` (acknowledgement, first reply), the ResponsePending loop
+    (`pendBudget`), and per retry the backoff `retry_wait * 2^i` plus the reconnect window (10 s DoIP, one connection
+    attempt otherwise: set-up of the reconnect included) -/
+theorem sys_every_call_ends (P : SProto Q) (cls : Bytes → Client.Ev) (c : LossSys.CCfg) (req : Bytes) (t : Nat)
+    (s : Sys Q) (es : List SEv) :
+    (LossSys.request P cls c req (some t) s es).1 ≠ .blocked ∧
+    (LossSys.request P cls c req (some t) s es).2.1.now ≤ s.now + LossSys.callBudget P c.lim t true c.maxRetry 0 := by
+  have := LossSys.attempts_spec P cls c.lim req t true (by simp) c.maxRetry 0 s es (.missing false) (by simp)
+  exact ⟨this.1, this.2.1⟩
+
+/-- the exact bound when the peer sends no ResponsePending: `(n+1) * (min t ack + t)` plus, per retry `i < n`,
+    `retry_wait * 2^i + window`; attained by a peer that stays silent (examples below) -/
+theorem sys_every_call_ends_exact (P : SProto Q) (cls : Bytes → Client.Ev) (hnp : ∀ d, cls d ≠ .pending) (c : LossSys.CCfg)
+    (req : Bytes) (t : Nat) (s : Sys Q) (es : List SEv) :
+    (LossSys.request P cls c req (some t) s es).2.1.now ≤ s.now + LossSys.callBudget P c.lim t false c.maxRetry 0 := by
+  have := LossSys.attempts_spec P cls c.lim req t false (fun _ => hnp) c.maxRetry 0 s es (.missing false) (by simp)
+  exact this.2.1
+
+/-- the closed form of the exact bound -/
+theorem callBudget_closed (P : SProto Q) (lim : Client.Limits) (t k i : Nat) :
+    LossSys.callBudget P lim t false k i =
+      (k + 1) * (min t P.ackTime + t) + k * LossSys.window P + (List.range k).foldr (fun j a => LossSys.waitMs lim (i + j) + a) 0 := by
+  induction k generalizing i with
+  | zero => simp [LossSys.callBudget, LossSys.attemptBudget]
+  | succ k ih =>
+    simp only [LossSys.callBudget, LossSys.attemptBudget, ih, Bool.false_eq_true, if_false, if_true]
+    rw [List.range_succ_eq_map, List.foldr_cons, List.foldr_map]
+    simp only [Nat.add_zero, Nat.succ_mul, Nat.add_assoc, Nat.add_comm 1]
+    have : ∀ j, LossSys.waitMs lim (i + (j + 1)) = LossSys.waitMs lim (i + 1 + j) := by intro j; congr 1; omega
+    simp only [this]
+    omega
+
+/-- the request is written exactly once per attempt, on the connection the transport holds when the attempt starts -/
+theorem sys_retries_exact_attempt (P : SProto Q) (cls : Bytes → Client.Ev) (lim : Client.Limits) (req : Bytes) (t : Nat)
+    (retry : Bool) (i : Nat) (s : Sys Q) (es : List SEv) (last : Out) :
+    (LossSys.attemptStep P cls lim req (some t) retry i s es last).sys.wire = s.wire ++ [(s.conn.idx, s.now, req)] :=
+  (LossSys.attemptStep_spec P cls lim req t retry i s es last true (by simp)).2.1
+
+/-- a call with `max_retry = n` writes the request at least once and at most `n + 1` times -/
+theorem sys_retries_exact (P : SProto Q) (cls : Bytes → Client.Ev) (c : LossSys.CCfg) (req : Bytes) (t : Nat)
+    (s : Sys Q) (es : List SEv) :
+    s.wire.length + 1 ≤ (LossSys.request P cls c req (some t) s es).2.1.wire.length ∧
+    (LossSys.request P cls c req (some t) s es).2.1.wire.length ≤ s.wire.length + c.maxRetry + 1 := by
+  have := LossSys.attempts_spec P cls c.lim req t true (by simp) c.maxRetry 0 s es (.missing false) (by simp)
+  exact this.2.2
+
+/-- close is idempotent in every state -/
+theorem sys_close_idempotent (s : Sys Q) : LossSys.closeConn (LossSys.closeConn s) = LossSys.closeConn s := rfl
+
+end Sys
 
 end Gallia.C08
